@@ -10,12 +10,20 @@
 (*   ok[h]    every byte h has received so far came from the right place   *)
 (* BUG: "none" | "shared_reader" (one position for all handles)            *)
 (*      | "two_step_cache" (a partial value is visible between two stores) *)
+(*      | "tracked_pos" (the archive remembers where it believes its reader *)
+(*        is and skips seeks that "would not move it"; a clone inherits the *)
+(*        belief but its cloned reader is wherever ITS Clone puts it)      *)
+(*   tpos[h]  the position handle h's archive believes its reader has      *)
+(*            (only consulted by the tracked_pos variant)                  *)
+(* CloneFrom(h, g): handle h is replaced by a fresh clone of g taken at    *)
+(* any moment; the cloned reader's position is the reader type's business  *)
+(* (a Cursor keeps it, a reader that reopens its file starts at 0).        *)
 (***************************************************************************)
 EXTENDS Naturals, Sequences, FiniteSets
 CONSTANTS Handles, NEnt, Len0, BUG
 VARIABLES lay,      \* the archive: lay[i] = [ds: data start, len: content length] (immutable)
-          ent, off, rpos, cache, ok, half
-vars == <<lay, ent, off, rpos, cache, ok, half>>
+          ent, off, rpos, cache, ok, half, tpos
+vars == <<lay, ent, off, rpos, cache, ok, half, tpos>>
 Ents == 1..Len(lay)
 DataStart(i) == lay[i].ds
 Partial(i) == lay[i].ds - 10               \* header start + fixed part: what a two-step store exposes
@@ -23,34 +31,52 @@ UniformLay == [i \in 1..NEnt |-> [ds |-> (i - 1) * (40 + Len0) + 40, len |-> Len
 
 Start(L) == /\ lay' = L /\ ent' = [h \in Handles |-> 0] /\ off' = [h \in Handles |-> 0] /\ rpos' = [h \in Handles |-> 0]
             /\ cache' = [i \in 1..Len(L) |-> 0] /\ ok' = [h \in Handles |-> TRUE] /\ half' = [h \in Handles |-> 0]
+            /\ tpos' = [h \in Handles |-> 0]
 Init == /\ lay = UniformLay /\ ent = [h \in Handles |-> 0] /\ off = [h \in Handles |-> 0] /\ rpos = [h \in Handles |-> 0]
         /\ cache = [i \in Ents |-> 0] /\ ok = [h \in Handles |-> TRUE] /\ half = [h \in Handles |-> 0]
+        /\ tpos = [h \in Handles |-> 0]
 Pos(h) == IF BUG = "shared_reader" THEN rpos[CHOOSE x \in Handles : TRUE] ELSE rpos[h]
 SetPos(h, p) == IF BUG = "shared_reader" THEN rpos' = [x \in Handles |-> p] ELSE rpos' = [rpos EXCEPT ![h] = p]
 
+HdrLen0 == 40                               \* the local header in front of each entry's data (UniformLay)
+\* where h's reader is after the open: the header is read from its start, which the archive seeks to -
+\* unless (tracked_pos) it believes the reader is already there
+AfterSeek(h, i) ==
+   IF BUG = "tracked_pos" /\ tpos[h] = DataStart(i) - HdrLen0 THEN Pos(h) + HdrLen0 ELSE DataStart(i)
 \* open entry i on handle h: locate the data (through the cache when it is filled), seek there
 Open(h, i) ==
    /\ ent[h] = 0 /\ half[h] = 0
    /\ IF BUG = "two_step_cache" /\ cache[i] = 0
       THEN /\ cache' = [cache EXCEPT ![i] = Partial(i)] /\ half' = [half EXCEPT ![h] = i]
-           /\ UNCHANGED <<lay, ent, off, rpos, ok>>
+           /\ UNCHANGED <<lay, ent, off, rpos, ok, tpos>>
       ELSE LET ds == IF BUG = "two_step_cache" /\ cache[i] # 0 THEN cache[i] ELSE DataStart(i) IN
            /\ cache' = [cache EXCEPT ![i] = ds]
-           /\ ent' = [ent EXCEPT ![h] = i] /\ off' = [off EXCEPT ![h] = 0] /\ SetPos(h, ds)
+           /\ ent' = [ent EXCEPT ![h] = i] /\ off' = [off EXCEPT ![h] = 0]
+           /\ SetPos(h, IF BUG = "tracked_pos" THEN AfterSeek(h, i) ELSE ds)
+           /\ tpos' = [tpos EXCEPT ![h] = DataStart(i)]
            /\ UNCHANGED <<lay, ok, half>>
 OpenFinish(h) ==
    /\ half[h] # 0
    /\ LET i == half[h] IN
       /\ cache' = [cache EXCEPT ![i] = DataStart(i)]
       /\ ent' = [ent EXCEPT ![h] = i] /\ off' = [off EXCEPT ![h] = 0] /\ SetPos(h, DataStart(i))
-      /\ half' = [half EXCEPT ![h] = 0] /\ UNCHANGED <<lay, ok>>
+      /\ half' = [half EXCEPT ![h] = 0] /\ UNCHANGED <<lay, ok, tpos>>
 Read(h, k) ==
    /\ ent[h] # 0 /\ k > 0 /\ off[h] + k <= lay[ent[h]].len
    /\ ok' = [ok EXCEPT ![h] = ok[h] /\ Pos(h) = DataStart(ent[h]) + off[h]]
    /\ SetPos(h, Pos(h) + k) /\ off' = [off EXCEPT ![h] = off[h] + k]
+   /\ tpos' = [tpos EXCEPT ![h] = tpos[h] + k]
    /\ UNCHANGED <<lay, ent, cache, half>>
-Close(h) == /\ ent[h] # 0 /\ ent' = [ent EXCEPT ![h] = 0] /\ UNCHANGED <<lay, off, rpos, cache, ok, half>>
+Close(h) == /\ ent[h] # 0 /\ ent' = [ent EXCEPT ![h] = 0] /\ UNCHANGED <<lay, off, rpos, cache, ok, half, tpos>>
+\* handle h (idle) is replaced by a clone of g's archive, taken now: what the archive believes is copied; the cloned
+\* reader is where g's is (a Cursor) or at the start (a reader that reopens its source)
+CloneFrom(h, g) ==
+   /\ h # g /\ ent[h] = 0 /\ half[h] = 0 /\ half[g] = 0
+   /\ \E p \in {0, Pos(g)} : rpos' = [rpos EXCEPT ![h] = p]
+   /\ tpos' = [tpos EXCEPT ![h] = tpos[g]] /\ off' = [off EXCEPT ![h] = 0]
+   /\ UNCHANGED <<lay, ent, cache, ok, half>>
 Next == \E h \in Handles : (\E i \in Ents : Open(h, i)) \/ OpenFinish(h) \/ (\E k \in 1..2 : Read(h, k)) \/ Close(h)
+                         \/ (\E g \in Handles : CloneFrom(h, g))
 Spec == Init /\ [][Next]_vars
 
 PerHandleView == \A h \in Handles : ok[h]
